@@ -38,6 +38,9 @@ func mergeDocuments(docA did.Document, docB did.Document) did.Document {
 	// for consistent results
 	sort.Slice(result.Context, contextSort(result))
 	sort.Slice(result.Service, serviceSort(result))
+	sort.Slice(result.Controller, func(i, j int) bool {
+		return result.Controller[i].String() < result.Controller[j].String()
+	})
 	sort.Slice(result.VerificationMethod, verificationMethodSort(result))
 	sort.Slice(result.KeyAgreement, keyAgreementSort(result))
 	sort.Slice(result.AssertionMethod, assertionSort(result))
